@@ -336,7 +336,9 @@ def match_known(known, prop, failure, plan):
 def write_replay(prop, seed, i, plan, failure, minimised_from):
     d = os.path.join(VERIF, "replays")
     os.makedirs(d, exist_ok=True)
-    path = os.path.join(d, f"{prop}-{seed}-{i}-{plan_digest(plan)[:8]}.json")
+    sigh = hashlib.sha256(signature(failure).encode()).hexdigest()[:6]
+    path = os.path.join(
+        d, f"{prop}-{seed}-{i}-{plan_digest(plan)[:8]}-{sigh}.json")
     doc = {
         "property": prop,
         "machine": MACHINES[prop],
